@@ -20,7 +20,7 @@ META = {
               "and semaphore families), actor ids 0..3 (sender/receiver/owner possibly unknown), object ids 0..3, tags and capacities any int, TESTANY/WAITANY wrapping "
               "one level, unwind 4. commutation: 13 synchronisation simcall kinds (mutex async_lock/trylock/unlock/wait, semaphore async_lock/unlock/wait, condvar "
               "async_lock/wait/signal/broadcast, barrier async_lock/wait), every unordered pair (quick: pairs inside the mutex+condvar, semaphore and barrier "
-              "families, both on the same objects, shapes where both are enabled); 2 mutexes, 1 condition variable, 1 semaphore (capacity 1..2), 1 barrier (1..2 "
+              "families, both on the same objects, shapes where both are enabled); 2 mutexes, 2 condition variables (pairs of condition-variable simcalls on the same or on different ones), 1 semaphore (capacity 1..2), 1 barrier (1..2 "
               "actors); a third actor may own the mutex or wait on the condition variable, a fourth may wait while the third owns (thorough); condition waits "
               "untimed, timed, or signalled beforehand; either preparation order (thorough); mutex / condvar / semaphore / barrier identifiers any unsigned "
               "(kinds are numbered separately: collisions across kinds included), the two mutexes distinct; unwind 8",
@@ -168,19 +168,6 @@ def commute_queries(tier):
                                 seen.add(name)
                                 qs.append(Query(name, "C39/commute.cpp", "harness_commute", dd, CSRC, unwind=8, cap_s=600, mem_gb=12, memcap=16,
                                                 prelude=["rbtree", "nostring"], no_pointer_overflow=True))
-                            continue
-                            if tier == "quick":
-                                if order or pre == 3 or (pre == 2 and (not ({ka, kb} & {9, 10}) or d.get("P_SIG"))) or not (fam_pair or (ka in (4, 5, 6) and kb in (4, 5, 6)) or (ka >= 11 and kb >= 11)):
-                                    continue
-                                if (oa, ob) != (0, 0) or (pre == 1 and not ({ka, kb} & {0, 1, 3})) or not both_enabled(ka, kb, oa, ob, pre, order, d):
-                                    continue
-                            name = f"commute_{KINDS[ka]}_{KINDS[kb]}_o{oa}{ob}_pre{pre}" + ("_ord" if order else "") + ("_tmo" if d.get("P_TMO") else "") + \
-                                   ("_sig" if d.get("P_SIG") else "")
-                            if name in seen:
-                                continue
-                            seen.add(name)
-                            qs.append(Query(name, "C39/commute.cpp", "harness_commute", d, CSRC, unwind=8, cap_s=600, mem_gb=12, memcap=16,
-                                            prelude=["rbtree", "nostring"], no_pointer_overflow=True))
     return qs
 
 
